@@ -143,7 +143,7 @@ def run_cfg(chk, facts, cfg):
     callers = {}
     for root, insts in facts.inst_roots.items():
         for ins in insts:
-            for bb, c in ins['calls']:
+            for bb, c in ins['allcalls']:
                 if 'inst' in c:
                     callers.setdefault(insts[c['inst']]['def'], set()).add(ins['def'])
     for root, insts in facts.inst_roots.items():
@@ -161,9 +161,13 @@ def run_cfg(chk, facts, cfg):
                 return True
             if imp['trait'] is not None and norm_path(imp['trait']) in allowed_traits:
                 return True
-            if imp['trait'] is None and not fn.get('exported') and depth < 4:
+            if imp['trait'] is None and not fn.get('exported') and depth < 6:
                 cs = callers.get(d, set())
                 return bool(cs) and all(site_ok(facts.fns[c], depth + 1) for c in cs if c != d)
+        if imp is None and fn['kind'] == 'Fn' and not fn.get('exported') and depth < 6:
+            # a private free helper is as trusted as the sites it is called from
+            cs = callers.get(d, set())
+            return bool(cs) and all(site_ok(facts.fns[c], depth + 1) for c in cs if c != d)
         if fn.get('path', '').startswith('interval::_::') or 'serde' in fn.get('path', ''):
             return imp is not None and imp.get('derived', False)
         return False
